@@ -95,4 +95,23 @@ def wfRun : W → List (Op × List Out) → Option W
 def WF (tr : List (Op × List Out)) : Prop :=
   ∃ w, wfRun {} tr = some w ∧ w.expect = []
 
+
+/-! ### vocabulary of the remaining clauses, over the state of the model -/
+
+/-- phase of the attempt as a function of the `Crazyflie` object's state -/
+def phase (s : S) : Ph :=
+  if s.link then
+    match s.st with
+    | .init => .req
+    | .conn => if s.stage = .up then (if s.isUpdated then .ful else .con) else .est
+    | .disc => .idle
+  else .idle
+
+
+/-- "the log and parameter tables are complete" -/
+def complete (d : Dev) (s : S) : Prop := s.logGot = d.nLog ∧ s.parToc = d.nPar ∧ s.extGot = d.extIds.length
+/-- "every parameter has a value" -/
+def allVals (d : Dev) (s : S) : Prop := ∀ i, i < d.nPar → s.vals.contains i = true
+
+
 end CfVerif.C02
